@@ -19,13 +19,24 @@ def repo_src() -> str:
     return os.path.join(os.environ.get("VERIF_REPO", "/repo"), "src")
 
 
+IMPORT_PID = 424242
+
+
 def import_pyrtma():
     src = repo_src()
     if src not in sys.path:
         sys.path.insert(0, src)
-    import pyrtma  # noqa: F401
-    import pyrtma.manager  # noqa: F401
-    import pyrtma.client  # noqa: F401
+    # whatever the package reads from the process while it is being imported is under the simulator's control
+    # too: the importing process had IMPORT_PID; the simulated processes that use the package later have their own
+    real_getpid = os.getpid
+    if "pyrtma" not in sys.modules:
+        os.getpid = lambda: IMPORT_PID
+    try:
+        import pyrtma  # noqa: F401
+        import pyrtma.manager  # noqa: F401
+        import pyrtma.client  # noqa: F401
+    finally:
+        os.getpid = real_getpid
     got = os.path.dirname(os.path.dirname(os.path.abspath(pyrtma.__file__)))
     if os.path.realpath(got) != os.path.realpath(src):
         raise SimInternalError(f"pyrtma imported from {got}, expected {src}")
